@@ -127,6 +127,17 @@ static YR_AC_STATE* _yr_ac_queue_pop(QUEUE* queue)
 // Returns:
 //   true if queue is empty, false otherwise.
 //
+static int _yr_ac_queue_is_empty(QUEUE* queue);
+
+////////////////////////////////////////////////////////////////////////////////
+// Frees every node still in the queue (used when a traversal is abandoned
+// because of an error).
+//
+static void _yr_ac_queue_clear(QUEUE* queue)
+{
+  while (queue->head != NULL) _yr_ac_queue_pop(queue);
+}
+
 static int _yr_ac_queue_is_empty(QUEUE* queue)
 {
   return queue->head == NULL;
@@ -239,7 +250,8 @@ static int _yr_ac_create_failure_links(YR_AC_AUTOMATON* automaton)
 
   while (state != NULL)
   {
-    FAIL_ON_ERROR(_yr_ac_queue_push(&queue, state));
+    FAIL_ON_ERROR_WITH_CLEANUP(
+        _yr_ac_queue_push(&queue, state), _yr_ac_queue_clear(&queue));
     state->failure = root_state;
     state = state->siblings;
   }
@@ -272,7 +284,8 @@ static int _yr_ac_create_failure_links(YR_AC_AUTOMATON* automaton)
 
     while (transition_state != NULL)
     {
-      FAIL_ON_ERROR(_yr_ac_queue_push(&queue, transition_state));
+      FAIL_ON_ERROR_WITH_CLEANUP(
+        _yr_ac_queue_push(&queue, transition_state), _yr_ac_queue_clear(&queue));
       failure_state = current_state->failure;
 
       while (1)
@@ -370,7 +383,8 @@ static int _yr_ac_optimize_failure_links(YR_AC_AUTOMATON* automaton)
 
   while (state != NULL)
   {
-    FAIL_ON_ERROR(_yr_ac_queue_push(&queue, state));
+    FAIL_ON_ERROR_WITH_CLEANUP(
+        _yr_ac_queue_push(&queue, state), _yr_ac_queue_clear(&queue));
     state = state->siblings;
   }
 
@@ -389,7 +403,8 @@ static int _yr_ac_optimize_failure_links(YR_AC_AUTOMATON* automaton)
 
     while (state != NULL)
     {
-      FAIL_ON_ERROR(_yr_ac_queue_push(&queue, state));
+      FAIL_ON_ERROR_WITH_CLEANUP(
+        _yr_ac_queue_push(&queue, state), _yr_ac_queue_clear(&queue));
       state = state->siblings;
     }
   }
@@ -588,7 +603,8 @@ static int _yr_ac_build_transition_table(YR_AC_AUTOMATON* automaton)
 
     yr_bitmask_set(automaton->bitmask, child_state->input + 1);
 
-    FAIL_ON_ERROR(_yr_ac_queue_push(&queue, child_state));
+    FAIL_ON_ERROR_WITH_CLEANUP(
+        _yr_ac_queue_push(&queue, child_state), _yr_ac_queue_clear(&queue));
     child_state = child_state->siblings;
   }
 
@@ -633,7 +649,8 @@ static int _yr_ac_build_transition_table(YR_AC_AUTOMATON* automaton)
 
       yr_bitmask_set(automaton->bitmask, child_state->t_table_slot);
 
-      FAIL_ON_ERROR(_yr_ac_queue_push(&queue, child_state));
+      FAIL_ON_ERROR_WITH_CLEANUP(
+        _yr_ac_queue_push(&queue, child_state), _yr_ac_queue_clear(&queue));
 
       child_state = child_state->siblings;
     }
